@@ -1,6 +1,7 @@
 """C06 output records are faithful snapshots — the real Model/Output/State/TimeKeeper run over a
 symbolic release + death history; the files are read back as doc/source/output.rst prescribes and
 compared by the solver with a closed-form ghost of the state."""
+import math
 from harness.common import T0, base_config, ovar, run_main
 
 PROPERTY = "C06"
@@ -167,6 +168,11 @@ def run(W, p):
                 W.prove(W.all(conds), "values", dict(file=fname, record=k, step=s, kd=kd, rs=rs, mult=mult))
         else:
             # dense: [record, pid] = value while alive, fill otherwise (pid itself is not stored in this layout)
+            # the fill of a floating point variable is NaN, declared in the file (doc/source/output.rst): a reader other than
+            # netCDF4-python does not know the library default
+            for var in ("X", "age", "temp", "lon", "lat") + (("hatch",) if hatch else ()):
+                fv = d["atts"].get(var, {}).get("_FillValue")
+                W.prove(_is_nan(W, fv), "dense-fill", dict(file=fname, variable=var, declared_fill=repr(fv), note="undefined cells are not declared NaN"))
             for k, r in enumerate(recs):
                 s = rec_steps[r]
                 conds, fills = [], True
@@ -195,6 +201,17 @@ def run(W, p):
         conds.append((_units_ref(ru, W) == W.idx(ref)) if not W.symbolic else _units_ok(W, ru, ref))
         W.prove(W.all(conds) if conds else True, "particle-vars", dict(file=fname, released=released, kd=kd, rs=rs, mult=mult, lens={v: len(V.get(v, [])) for v in ("w0", "release_time")}))
     return (tuple(mult), tuple(kd))
+
+
+def _is_nan(W, v):
+    if v is None:
+        return False
+    if W.symbolic:
+        return v is W.np.NAN
+    try:
+        return math.isnan(float(v))
+    except (TypeError, ValueError):
+        return False
 
 
 def warm_dense(W, p):
